@@ -78,6 +78,14 @@ Definition as_mstate (st : pst) : mstate V :=
 (* node.value of every node when the model holds st *)
 Definition pvalue (g : graph F) (st : pst) (k : nat) : V := value interp dflt g (as_mstate st) k.
 
+(* executable test of the hypothesis of the theorems (BlockwiseProofs.good), given a decision of equality
+   on values: right lengths, no flag raised, every cached node stores its from-scratch value *)
+Definition goodb (veqb : V -> V -> bool) (g : graph F) (st : pst) : bool :=
+  (length (pv st) =? length g) && (length (pf st) =? length g) && forallb negb (pf st)
+  && (let d := den_tab interp dflt g (pv st) in
+      forallb (fun k => if is_cached g k then veqb (getv dflt (pv st) k) (getv dflt d k) else true)
+              (seq 0 (length g))).
+
 Section Impl.
 Variable I : impl V F.
 
@@ -167,6 +175,7 @@ Arguments is_value {F}.
 Arguments is_cached {F}.
 Arguments scratch {V F}.
 Arguments as_mstate {V}.
+Arguments goodb {V F}.
 Arguments pvalue {V F}.
 Arguments clear_flags {V F}.
 Arguments load {V F}.
